@@ -16,6 +16,7 @@
      JsonInBuffer / JsonOwned   mi_stats_get_json: result is the caller's buffer, terminated, strlen < size
      FmtBounded                 _mi_snprintf / _mi_strlcpy / _mi_strlcat: terminated, strlen < size, ret = strlen; size 0: untouched
      ChunkBounded               every string handed to an output function is terminated and shorter than the internal buffer
+     BufferedOutBounded         the line buffer of the statistics printer never hands out more than its capacity
   Guards are IF-THEN-ELSE (never `cond \/ Print`): with Relaxed = TRUE a failing guard prints GUARDFAIL and the
   behaviour continues, so one pass reports every failing row.  Acceptance = all rows consumed and no GUARDFAIL.
  ***************************************************************************)
@@ -148,6 +149,11 @@ FmtRow(ev) ==
           /\ IF n = 0 THEN ev.ret[j] = 0 /\ ev.len[j] = 0
              ELSE ev.terminated[j] = 1 /\ ev.len[j] < n /\ ev.ret[j] = ev.len[j])
 
+BufOutRow(ev) ==     \* mi_buffered_out with a line buffer of capacity `count` (storage count+1, ends at the guard page)
+  /\ Consume /\ Frame /\ Keep
+  /\ GD("BufferedOutBounded", "count" \o ToString(ev.count) \o "/" \o ToString(ev.msglen),
+        ev.unterminated = 0 /\ ev.maxlen <= ev.count)
+
 TraceNext ==
   /\ step < Len(Tr)
   /\ LET ev == Tr[step + 1] IN
@@ -164,6 +170,7 @@ TraceNext ==
        [] ev.k = "chunk" -> ChunkRow(ev)
        [] ev.k = "json" -> JsonRow(ev)
        [] ev.k = "fmt" -> FmtRow(ev)
+       [] ev.k = "bufout" -> BufOutRow(ev)
        [] ev.k = "cfg" -> /\ Consume /\ Frame
                           /\ GD("Total", "previous process unfinished", ph = "idle")
                           /\ ph' = "run" /\ UNCHANGED <<tab, env, prist, base>>
